@@ -4,6 +4,7 @@ import (
 	"fmt"
 	"go/types"
 	"math"
+	"os"
 	"sort"
 	"strings"
 
@@ -182,6 +183,17 @@ func init() {
 		},
 		"vGuardOff": func(in *Interp, fn *ssa.Function, a []Value) Value {
 			in.guardOn = false
+			return nil
+		},
+		"vTrace": func(in *Interp, fn *ssa.Function, a []Value) Value {
+			if os.Getenv("GOSYM_TRACE") != "" {
+				fmt.Fprintf(os.Stderr, "TRACE %s = %s\n", concreteStr(a[0]), in.describe(a[1]))
+			}
+			if debugDecide {
+				if t, ok := a[1].(*Term); ok {
+					in.traced = append(in.traced, Observation{concreteStr(a[0]), t})
+				}
+			}
 			return nil
 		},
 		"vSymbolic": func(in *Interp, fn *ssa.Function, a []Value) Value { return in.ts.True },
